@@ -11,6 +11,7 @@ application's screen".
 import VaxisModel.Lemmas.App
 import VaxisModel.Lemmas.AppText
 import VaxisModel.Props.C01Clip
+import VaxisModel.Lemmas.RenderSixel
 
 namespace VaxisModel.Lemmas.AppSys
 open VaxisModel.Model.Window VaxisModel.Model.Render VaxisModel.Model.App
@@ -216,6 +217,18 @@ theorem frameInOk (X : Ctx) (s : Sys) (hi : Inv X s) (hcur : CursorIn s.v) (refr
   simp only [Int.toNat_of_nonneg hc, Int.toNat_of_nonneg hr]
   exact this
 
+/-- The buffer the drawing calls fill has no sixel-flagged cell, so `Render()` is `renderFrameC`. -/
+theorem doRender_eq (cw : String → Nat) (caps : Caps) (I : Interp) (v : Vx) :
+    doRender cw caps I v =
+      ({ v with last := (renderFrameC cw (frameOf caps I v)).1, cursorLast := v.cursorNext, shapeLast := v.shapeNext, refresh := false },
+       (renderFrameC cw (frameOf caps I v)).2) := by
+  have h : ∀ r ∈ (frameOf caps I v).next, ∀ c ∈ r, c.sixel = false := by
+    intro r hr c hc
+    obtain ⟨l, _, rfl⟩ := List.mem_map.1 hr
+    obtain ⟨c0, _, rfl⟩ := List.mem_map.1 hc
+    rfl
+  simp only [doRender, VaxisModel.Lemmas.RenderSixel.renderFrameS_eq cw _ h]
+
 /-- `Render()` (with `refresh` as given) from a state satisfying the invariant. -/
 theorem render_step (X : Ctx) (hX : X.Ok) (s : Sys) (hi : Inv X s) (hcur : CursorIn s.v) :
     let s' : Sys := { v := (doRender X.cw X.caps X.I s.v).1, t := run X.cw s.t (doRender X.cw X.caps X.I s.v).2 }
@@ -225,7 +238,16 @@ theorem render_step (X : Ctx) (hX : X.Ok) (s : Sys) (hi : Inv X s) (hcur : Curso
     ⟨s.t, s.v.last, s.v.cursorLast, s.v.shapeLast⟩ ⟨s.v.refresh, X.I.grid s.v.scr.buf, s.v.cursorNext, s.v.shapeNext⟩
     hi.ready hi.agree (frameInOk X s hi hcur s.v.refresh)
   obtain ⟨h1, h2, h3, h4⟩ := hstep
-  exact ⟨⟨hi.wf, h1, fun _ => h2, hi.cells⟩, h3, h4⟩
+  have e := doRender_eq X.cw X.caps X.I s.v
+  have e1 : s'.v = (doRender X.cw X.caps X.I s.v).1 := rfl
+  have e2 : s'.t = run X.cw s.t (doRender X.cw X.caps X.I s.v).2 := rfl
+  refine ⟨⟨?_, ?_, ?_, ?_⟩, ?_, ?_⟩
+  · rw [e1, e]; exact hi.wf
+  · rw [e2, e1, e]; exact h1
+  · intro _; rw [e2, e1, e]; exact h2
+  · rw [e1, e]; exact hi.cells
+  · rw [e2, e1, e]; exact h3
+  · rw [e2, e]; exact h4
 
 theorem draw_step (X : Ctx) (hX : X.Ok) (s : Sys) (hi : Inv X s) (d : DrawOp) (hok : OpOk X s (.draw d)) :
     Inv X (sysStep X s (.draw d)) := by
@@ -302,7 +324,7 @@ theorem sys_step (X : Ctx) (hX : X.Ok) (s : Sys) (hi : Inv X s) (op : SysOp) (ho
       exact ⟨this.1, fun _ => this.2⟩
     · simp only [OpOk, hs, if_false] at hok
       have := resize_step X s hi cols rows g hok
-      simp only [sysStep, endFrame, hs, if_false, isFrame, run, List.foldl_nil]
+      simp only [sysStep, endFrame, hs, isFrame, run]
       exact ⟨this, fun h => absurd h (by simp)⟩
 
 /-! ### runs -/
@@ -356,7 +378,8 @@ def sizeChange (s : Sys) : SysOp → Bool
 theorem render_cursor (X : Ctx) (s : Sys) (hi : Inv X s) (hcur : CursorIn s.v) (hc : CursorAs s.t s.v.cursorLast) :
     CursorAs (run X.cw s.t (doRender X.cw X.caps X.I s.v).2) (doRender X.cw X.caps X.I s.v).1.cursorLast := by
   obtain ⟨hcn, hrn, _, _⟩ := hi.wf
-  simp only [doRender, VaxisModel.Lemmas.RenderClip.renderFrameC_eq]
+  rw [doRender_eq]
+  simp only [VaxisModel.Lemmas.RenderClip.renderFrameC_eq]
   apply cursor_as_requested X.cw X.cw { frameOf X.caps X.I s.v with next := clipGrid X.cw (frameOf X.caps X.I s.v).next } s.t
   · intro hv
     have := hcur hv
